@@ -238,8 +238,8 @@ def check_doc(doc, seeds=(1, 2)):
         i += 1
         got = got.replace(ph, "RGSVS%dX" % i)
     if mr.servings is not None:
-        plain = re.sub(r"(<h1>.*?)0*(\d+)(\s*</h1>)", lambda m: m.group(1) + str(int(m.group(2))) + m.group(3), plain, count=1)
-        got = re.sub(r"(<h1>.*?)0*(\d+)(\s*</h1>)", lambda m: m.group(1) + str(int(m.group(2))) + m.group(3), got, count=1)
+        plain = re.sub(r"(<h1>.*?)0*(\d+)(\s*</h1>)", lambda m: m.group(1) + str(int(m.group(2))) + m.group(3), plain, count=1, flags=re.S)
+        got = re.sub(r"(<h1>.*?)0*(\d+)(\s*</h1>)", lambda m: m.group(1) + str(int(m.group(2))) + m.group(3), got, count=1, flags=re.S)
     if got != plain:
         # first difference
         j = next((x for x in range(min(len(got), len(plain))) if got[x] != plain[x]), min(len(got), len(plain)))
